@@ -158,10 +158,10 @@ func listDepth(v interface{}) int {
 func (c09) Case(c *core.Ctx) {
 	r := c.R
 	cfg := DefaultCfg()
-	cfg.AttrPrefix = []string{"-", "-", "@", "attr_", ""}[r.Intn(5)]
+	cfg.AttrPrefix = []string{"-", "-", "@", "attr_", "", "-", "@", "1", "[", "[1"}[r.Intn(10)]
 	cfg.KeyPrefix = []string{"#", "#", "%"}[r.Intn(3)]
 	textK := cfg.textK()
-	arbitrary := r.Intn(4) == 0
+	arbitrary := r.Intn(4) == 0 || strings.Contains(cfg.AttrPrefix, "[") // (attribute keys then contain '[': path text is not compared)
 	keys := []string{"a", "b", "c", "k", "a", "b", "(0,10]", "r]", "#attr", "0"}
 	if arbitrary {
 		keys = append(keys, "", ".", "a.b", "[0]", "*", "a[1]", " ", "é", "#seq", "#comment", "1", "k ")
@@ -234,6 +234,11 @@ func (c09) Case(c *core.Ctx) {
 	if arbitrary && r.Intn(3) == 0 {
 		root[keys[r.Intn(len(keys))]] = gen(2)
 	}
+	if r.Intn(6) == 0 {
+		c.Add("shape:aliased-submaps", int64(jv.Alias(r, root, 1+r.Intn(2), func(k string) bool {
+			return k == textK || (cfg.AttrPrefix != "" && strings.HasPrefix(k, cfg.AttrPrefix)) // attribute and text entries stay scalar
+		})))
+	}
 	before := jv.Fp(root)
 	_, emptyBelow := hasEmptyKey(root, false, 0)
 	if arbitrary {
@@ -258,6 +263,7 @@ func (c09) Case(c *core.Ctx) {
 	}
 	m := mxj.Map(root)
 	c.Eval()
+	failedCalls(c, 8)
 
 	var all []leafT
 	refLeaves(root, "", false, dot, cfg.AttrPrefix, textK, &all)
